@@ -40,6 +40,10 @@ def run(res, tier, a, prop):
     crash_rows = []
     if prop == "C05":
         crash_rows = crash_corpus(res)
+    if prop == "C14":
+        res.coverage["merged_token_location"] = merged_token_location(res)
+        res.assumptions.append("merged_token_location (E-M): Location::union is a stub constrained by the contract the Kani harness "
+                               "union_is_least_upper_bound proves; str::parse, format!, alloc_string, error reporting are opaque stubs")
     res.coverage.update({
         "states": sum(1 for h in harnesses if results.get(h, {}).get("status") == "SUCCESSFUL") or 1,
         "transitions": len(harnesses),
@@ -86,3 +90,114 @@ def crash_corpus(res):
                 res.violation("the front end does not survive the input %s: %s" % (os.path.basename(f), st),
                               {"property": "C05", "input_file": f, "input": open(f, errors="replace").read()[:400], "status": st})
     return rows
+
+
+def merged_token_location(res):
+    """C14, E-M on the rustc MIR of TokenProducer::process_raw_token: on every path that merges a pending `-` with the
+    literal 2147483648 into one token, the location of the merged token starts where the minus sign starts and ends
+    where the digits end, for ALL locations of the two tokens such that the minus sign ends before the digits start
+    (any amount of layout in between, on any lines).  A witness is replayed through the real lexer + parser."""
+    import json
+    import z3
+    from vlib import mir, smt, ws
+    from vlib.mir import Lazy, Adt
+    from checks import c06
+    out = {"paths": 0, "merging_paths": 0, "obligations": 0, "discharged": 0, "replays": 0}
+    with Scratch(os.environ.get("VERIF_SLOT", "ws")) as sc:
+        ws.inject(sc)
+        drv = ws.Driver(ws.build_driver(sc))
+        defs = mir.RustDefs()
+        defs.load_source(open(os.path.join(sc.w, "crates/samlang-parser/src/lexer.rs")).read())
+        defs.load_source(open(os.path.join(sc.w, "crates/samlang-ast/src/loc.rs")).read())
+        fns = mir.parse_dump(ws.mir_dump(sc, "samlang-parser", False), "parser")
+        cands = [f for n, f in fns.items() if n.endswith("::process_raw_token")]
+        if len(cands) != 1 or "Location" not in defs.structs or "Position" not in defs.structs:
+            raise Inconclusive("encoding could not be regenerated: process_raw_token / Location / Position not found")
+        f = cands[0]
+        ex = mir.Exec(fns, defs)
+        # lengths of strings are arbitrary numbers here (the text of the merged literal is not modelled)
+        ex.opaque_calls = c06.STUBS + [(r"String::len$", "string_len"), (r"<impl str>::len$", "str_len"), (r"core::str::<impl str>::chars", "chars"),
+                                       (r"Iterator>::count$|::count::<", "count")]
+        ex.opaque_types = {"PStr", "ModuleReference", "Heap", "ErrorSet", "WrappedLogosLexer", "String", "str"}
+
+        def locfields(adt, st):
+            adt = ex.force(adt, st)
+            terms = [ex.force(ex.field_get(adt, 0, 0, "ModuleReference", st), st).t]
+            for fi in (1, 2):
+                pos = ex.force(ex.field_get(adt, 0, fi, "Position", st), st)
+                for k in (0, 1):
+                    terms.append(ex.force(ex.field_get(pos, 0, k, "u32", st), st).t)
+            return terms
+
+        ex.event_snapshot = {"loc_union": lambda e, args, st: [locfields(e.read_path(a, [("deref",)], st), st) for a in args]}
+        args = [Lazy(t, n) for (p_, t), n in zip(f.params, ["self", "tok", "heap", "errs"])]
+        try:
+            paths = ex.run_fn(f, args, [])
+        except mir.Untranslatable as e:
+            raise Inconclusive("process_raw_token can no longer be translated with a transparent Location: %s" % e)
+        out["paths"] = len(paths)
+        OPERATOR = defs.variant_index("TokenContent", "Operator")
+
+        def lt(a0, a1, b0, b1):     # derived Ord of Position(line, column)
+            return z3.Or(z3.ULT(a0, b0), z3.And(a0 == b0, z3.ULT(a1, b1)))
+
+        def le(a0, a1, b0, b1):
+            return z3.Not(lt(b0, b1, a0, a1))
+        for p in paths:
+            if p.outcome[0] != "return" or "alloc_string" not in [e[0] for e in p.events]:
+                continue
+            out["merging_paths"] += 1
+            st = p.state
+            selfref = st["frames"][st["fid"]].get("_1")
+            tp = ex.read_path(selfref, [("deref",)], st)
+            pend_after = ex.field_get(tp, 0, 1, "Option<Token>", st)
+            if not (isinstance(pend_after, Adt) and pend_after.discr == 1):
+                raise Inconclusive("merging path does not leave a pending token")
+            merged = locfields(pend_after.variants[1].get(0).variants[0][0], st)
+            # the two input tokens, by the names of the lazily initialised inputs
+            pend = Lazy("Location", "self.*.v0.f1.v1.f0.v0.f0")
+            minus = locfields(ex.materialize(pend, st), st)
+            lit = locfields(ex.materialize(Lazy("Location", "tok.v0.f0"), st), st)
+            contract = []
+            for e in p.events:
+                if e[0] == "loc_union":
+                    a, b = e[2]
+                    r = locfields(ex.materialize(Lazy("Location", "loc_union!%d" % e[3]), st), st)
+                    contract += [r[0] == a[0],
+                                 r[1] == z3.If(lt(a[1], a[2], b[1], b[2]), a[1], b[1]), r[2] == z3.If(lt(a[1], a[2], b[1], b[2]), a[2], b[2]),
+                                 r[3] == z3.If(lt(b[3], b[4], a[3], a[4]), a[3], b[3]), r[4] == z3.If(lt(b[3], b[4], a[3], a[4]), a[4], b[4])]
+            pre = [minus[0] == lit[0], le(minus[1], minus[2], minus[3], minus[4]), le(minus[3], minus[4], lit[1], lit[2]), le(lit[1], lit[2], lit[3], lit[4])]
+            wrong = z3.Or(merged[0] != minus[0], merged[1] != minus[1], merged[2] != minus[2], merged[3] != lit[3], merged[4] != lit[4])
+            out["obligations"] += 1
+            r, model, info = smt.check(list(p.pc) + contract + pre + [wrong], timeout_s=60, cross=True)
+            if r == "unsat":
+                out["discharged"] += 1
+                continue
+            if r != "sat":
+                res.inconc("merged token location: solver inconclusive (%s)" % info)
+                continue
+            g = lambda t: model.eval(t, model_completion=True).as_long()
+            wit = {"minus": [g(x) for x in minus[1:]], "digits": [g(x) for x in lit[1:]], "merged_by_the_encoding": [g(x) for x in merged[1:]]}
+            # replay: an expression with the minus sign and the digits at the witness's distance (same line when the
+            # witness has them on one line, otherwise on two lines)
+            gap_lines = min(3, max(0, wit["digits"][0] - wit["minus"][2]))
+            gap_cols = min(6, max(0, wit["digits"][1] - wit["minus"][3])) if gap_lines == 0 else min(6, wit["digits"][1])
+            text = "-" + "\n" * gap_lines + " " * gap_cols + "2147483648"
+            path = os.path.join(sc.root, "c14expr.txt")
+            open(path, "w").write(text)
+            pr = drv.call(["exprloc", path], check=False)
+            try:
+                got = json.loads(pr.stdout.strip().split("\n")[-1])["loc"]
+            except Exception:
+                res.inconc("merged token location: witness could not be replayed: %s" % (pr.stdout + pr.stderr)[-200:])
+                continue
+            out["replays"] += 1
+            want = [0, 0, gap_lines, gap_cols + 10 + (1 if gap_lines == 0 else 0)]
+            if got != want:
+                res.violation("the token that merges `-` and 2147483648 has the location %s for the text %r; the minus sign starts at 0:0 and the digits end at %d:%d"
+                              % (got, text, want[2], want[3]), {"property": "C14", "text": text, "location": got, "expected": want, "solver_witness": wit})
+            else:
+                res.inconc("merged token location: the solver's witness %s does not reproduce on the real lexer (location %s for %r)" % (wit, got, text))
+        if out["merging_paths"] == 0:
+            res.inconc("merged token location: no merging path found in process_raw_token")
+    return out
